@@ -17,14 +17,15 @@ RULE = ('every exception class of pyramid.httpexceptions x detail/comment/explan
         'default / class / custom body templates, called as a WSGI application, plus Router.__call__ on unknown '
         'paths, plus the other raisers reached through a real Router (static view: not found / out of bounds / add-slash '
         'redirect with request URL and query string; PredicateMismatch of multiviews and predicated views; HTTPForbidden '
-        'of secured views), plus code-point sweeps through html_escape and json.dumps; non-trivial = a body was rendered and at '
+        'of secured views), plus histories (one exception object called 2-3 times under different Accept headers / environs, '
+        'incl. a failing first call), plus code-point sweeps through html_escape and json.dumps; non-trivial = a body was rendered and at '
         'least one supplied text contains a character that an escape function or the Template scanner treats '
         'specially; distinct by full case')
 ASSUMPTIONS = [
     'detail, comment, explanation, location, header and environ values are str (objects with __html__ bypass escaping by WebOb design; bytes/other objects are stringified before escaping and are not generated)',
     'the result of WebOb Accept negotiation (acceptable_offers) is an oracle input of the model',
     'response header names passed as headers= are ASCII (str.lower() is modelled on ASCII); Content-Type and Content-Length can never be named by a Template identifier and are left out of the args map',
-    'the exception is rendered once (a second call finds has_body set and re-sends the first body)',
+    'object state across calls is modelled (a successful prepare() stores body/content type/charset; later calls repeat it; a failed call leaves no trace): histories of 2-3 calls on one object are generated; only __call__ is driven, not direct mutation of body/content_type between calls',
     'request.path_info decoding (WebOb) is an oracle input for the Router path; only decodable paths are generated',
     'request.url / path_url / query_string (WebOb) are oracle inputs for the static-view cases; QUERY_STRING is ASCII (a non-UTF-8 query makes request.params of the predicate fail with UnicodeDecodeError before any exception is rendered)',
     'REQUEST_METHOD != HEAD (WebOb then sends an empty body); Location without CR/LF (WebOb rejects it)',
@@ -215,6 +216,53 @@ def gen_router(rng):
     return {'via': 'router', 'path': path, 'accept': gen_accept(rng)}
 
 
+def gen_history(rng):
+    """one exception object called 2-3 times with different Accept headers / environs"""
+    c = gen_direct(rng)
+    n = rng.choice([2, 2, 3])
+    calls = [c.pop('environ')]
+    forms = ['text/html', 'application/json', 'text/plain', None, '*/*']
+    for _ in range(n - 1):
+        env = [list(kv) for kv in calls[0] if kv[0] != 'HTTP_ACCEPT']
+        acc = rng.choice(forms) if rng.random() < 0.7 else gen_accept(rng)
+        if acc is not None:
+            env.append(['HTTP_ACCEPT', acc])
+        r = rng.random()
+        if r < 0.3:
+            for kv in env:
+                if kv[0] not in ('SERVER_NAME', 'SERVER_PORT', 'wsgi.url_scheme', 'HTTP_ACCEPT', 'SCRIPT_NAME', 'PATH_INFO') \
+                        and rng.random() < 0.5:
+                    kv[1] = gen_text(rng, 2, surrogates=False) or ('GET' if kv[0] == 'REQUEST_METHOD' else '')
+                    if kv[0] == 'REQUEST_METHOD' and kv[1] == 'HEAD':
+                        kv[1] = 'GET'
+        elif r < 0.45:
+            for k in ('HTTP_X_EVIL', 'x_foo', 'evil', 'missing'):
+                if k not in [e[0] for e in env] and rng.random() < 0.5:
+                    env.append([k, gen_text(rng, 2, surrogates=False)])
+        calls.append(env)
+    if rng.random() < 0.5:
+        # make the first call's form differ from a later one more often
+        a0 = rng.choice(['text/plain', 'application/json', 'text/html'])
+        calls[0] = [kv for kv in calls[0] if kv[0] != 'HTTP_ACCEPT'] + [['HTTP_ACCEPT', a0]]
+    if rng.random() < 0.12:
+        # a first call that fails (placeholder not yet in the environ), a later one that supplies it
+        c['body_template'] = rng.choice(['${detail} ${HTTP_X_EVIL}', '$HTTP_X_EVIL<p>${detail}</p>${br}'])
+        calls[0] = [kv for kv in calls[0] if kv[0] != 'HTTP_X_EVIL']
+        k = rng.randrange(1, len(calls))
+        if 'HTTP_X_EVIL' not in [kv[0] for kv in calls[k]]:
+            calls[k] = calls[k] + [['HTTP_X_EVIL', gen_text(rng, 2, surrogates=False)]]
+    c['via'] = 'history'
+    c['calls'] = calls
+    return c
+
+
+def _as_direct(case, k):
+    d = {f: case[f] for f in ('cls', 'detail', 'comment', 'explanation', 'location', 'headers', 'body_template')}
+    d['via'] = 'direct'
+    d['environ'] = case['calls'][k]
+    return d
+
+
 def sweep_case(start, n, accept, cls='HTTPNotFound', skip_surrogates=False):
     cps = [c for c in range(start, min(start + n, 0x110000)) if not (skip_surrogates and 0xd800 <= c < 0xe000)]
     env = [list(kv) for kv in BASE_ENV] + [['HTTP_ACCEPT', accept]]
@@ -245,7 +293,8 @@ def generate(rng, tier, n):
             produced += 1
     while produced < n:
         r = rng.random()
-        yield gen_router(rng) if r < 0.15 else apps.gen_case(rng, gen_text, gen_accept) if r < 0.3 else gen_direct(rng)
+        yield (gen_router(rng) if r < 0.15 else apps.gen_case(rng, gen_text, gen_accept) if r < 0.3
+               else gen_history(rng) if r < 0.45 else gen_direct(rng))
         produced += 1
 
 
@@ -255,6 +304,11 @@ def _is_opt_str(x):
 
 def valid(case):
     try:
+        if case.get('via') == 'history':
+            return (isinstance(case.get('calls'), list) and 1 <= len(case['calls']) <= 4
+                    and set(case) == {'via', 'cls', 'detail', 'comment', 'explanation', 'location', 'headers',
+                                      'body_template', 'calls'}
+                    and all(valid(_as_direct(case, k)) for k in range(len(case['calls']))))
         if case.get('via') == 'app':
             return apps.valid(case)
         if case.get('via') == 'router':
@@ -278,6 +332,8 @@ def valid(case):
                 return False
         if env['REQUEST_METHOD'] == 'HEAD' or env['wsgi.url_scheme'] not in ('http', 'https'):
             return False
+        if any(ord(c) > 255 for c in env['SCRIPT_NAME'] + env['PATH_INFO']):
+            return False      # WSGI strings are latin-1 (WebOb builds the absolute Location from them)
         if not env['SERVER_PORT'].isdigit() or not env['SERVER_NAME'].isascii() or not env['SERVER_NAME']:
             return False
         for kv in case['environ'] + case['headers']:
@@ -310,6 +366,12 @@ def oracle_path_info(path):
 
 
 def to_wire(case):
+    if case['via'] == 'history':
+        steps = []
+        for env in case['calls']:
+            steps.append([[list(kv) for kv in env], oracle_offers(dict(map(tuple, env)).get('HTTP_ACCEPT', ''))])
+        return [case['cls'], _opt(case['detail']), _opt(case['comment']), _opt(case['explanation']), case['location'],
+                [list(kv) for kv in case['headers']], _opt(case['body_template']), steps]
     if case['via'] == 'app':
         cls, detail, loc = apps.expected(case, _table()['formats'])
         acc = case['accept']
@@ -338,6 +400,10 @@ def _dec(o):
 def from_wire(case, raw):
     if not isinstance(raw, list) or len(raw) != 3:
         return {'model': ['MODEL-BAD', raw], 'spec': None}
+    if case['via'] == 'history':
+        if not isinstance(raw[0], list) or not isinstance(raw[1], list):
+            return {'model': ['MODEL-BAD', raw], 'spec': None}
+        return {'model': ['HIST', [_dec(o) for o in raw[0]]], 'spec': ['HIST', [_dec(o) for o in raw[1]], raw[2]]}
     return {'model': _dec(raw[0]), 'spec': [_dec(raw[1]), raw[2]]}
 
 
@@ -398,6 +464,18 @@ def run_impl(case):
         if case['accept'] is not None:
             env['HTTP_ACCEPT'] = case['accept']
         return _collect(_impl['app'], env)
+    if case['via'] == 'history':
+        exc = _construct(_as_direct(case, 0))
+        if isinstance(exc, list):
+            return ['HIST', [exc]]
+        return ['HIST', [_collect(exc, dict(map(tuple, env))) for env in case['calls']]]
+    exc = _construct(case)
+    if isinstance(exc, list):
+        return exc
+    return _collect(exc, dict(map(tuple, case['environ'])))
+
+
+def _construct(case):
     H = _impl['H']
     cls = getattr(H, case['cls'])
     kw = {}
@@ -412,11 +490,16 @@ def run_impl(case):
             exc.explanation = case['explanation']
     except Exception as e:
         return ['EXC', 'ctor:' + type(e).__name__]
-    return _collect(exc, dict(map(tuple, case['environ'])))
+    return exc
 
 
 # ------------------------------------------------------------ judging
 def _supplied(case):
+    if case['via'] == 'history':
+        out = []
+        for k in range(len(case['calls'])):
+            out += _supplied(_as_direct(case, k))
+        return out
     if case['via'] == 'app':
         return [t for t in (case['path'], case['query'], case['script']) if t]
     if case['via'] == 'router':
@@ -432,6 +515,8 @@ def spec_holds(case, obs, spec):
     plus checks made here with the libraries themselves (json.loads; a marker tag never survives in HTML)."""
     if spec is None:
         return None
+    if case['via'] == 'history':
+        return _history_holds(case, obs, spec)
     want, want_type = spec
     if want[0] != 'OK':
         return None          # unknown placeholder / malformed custom template / unencodable text: nothing promised
@@ -467,6 +552,33 @@ def spec_holds(case, obs, spec):
     return True
 
 
+def _history_holds(case, obs, spec):
+    """history_ok of coq/Model/C19.v evaluated on the OBSERVED responses: every rendered response equals -- status,
+    content type, charset, body together -- the single-call specification of one of the calls made so far; a call
+    may fail only if its own single-call rendering is an error.  Each rendered response additionally passes the
+    single-response checks (marker tag, json.loads) under the call it matches."""
+    if obs[0] != 'HIST' or spec[0] != 'HIST' or spec[2] != 1:
+        return False
+    rs, singles = obs[1], spec[1]
+    if len(rs) != len(singles):
+        return False
+    constrained = False
+    for k, r in enumerate(rs):
+        if r[0] == 'OK':
+            js = [j for j in range(k + 1) if singles[j] == r]
+            if not js:
+                return False
+            constrained = True
+            d = _as_direct(case, js[0])
+            env = dict(map(tuple, d['environ']))
+            offers = oracle_offers(env.get('HTTP_ACCEPT', ''))
+            if spec_holds(d, r, [singles[js[0]], offers[0] if offers else 'text/plain']) is False:
+                return False
+        elif singles[k][0] == 'OK':
+            return False
+    return True if constrained else None
+
+
 def classify(case, obs, spec):
     return None
 
@@ -479,6 +591,9 @@ def _interesting(t):
 
 
 def nontrivial(case, obs):
+    if case['via'] == 'history':
+        return obs[0] == 'HIST' and any(r[0] == 'OK' and r[4] != '' for r in obs[1]) and \
+            any(_interesting(t) for t in _supplied(case))
     texts = _supplied(case)
     if case['via'] == 'app':
         texts = texts + [apps.expected(case, _table()['formats'])[1] or '']
@@ -486,6 +601,26 @@ def nontrivial(case, obs):
 
 
 def kinds(case, obs):
+    if case['via'] == 'history':
+        k = ['via-history', 'calls-%d' % len(case['calls'])]
+        rs = obs[1] if obs[0] == 'HIST' else []
+        forms = [r[2] if r[0] == 'OK' else 'exc' for r in rs]
+        k.append('hist-first-' + (forms[0] if forms else 'none'))
+        accs = [dict(map(tuple, e)).get('HTTP_ACCEPT') for e in case['calls']]
+        offs = [(oracle_offers(a or '') or ['text/plain'])[0] for a in accs]
+        if len(set(offs)) > 1:
+            k.append('hist-forms-differ')
+        if 'exc' in forms and any(f != 'exc' for f in forms):
+            k.append('hist-error-then-render' if forms.index('exc') < max(i for i, f in enumerate(forms) if f != 'exc')
+                     else 'hist-render-then-error')
+        if all(f == 'exc' for f in forms) and forms:
+            k.append('hist-all-errors')
+        j = ''.join(_supplied(case))
+        if any(c in j for c in '<>&"\''):
+            k.append('has-markup')
+        if '$' in j:
+            k.append('has-dollar')
+        return k
     k = ['via-' + case['via']]
     if obs[0] == 'OK':
         k.append('type-' + (obs[2] or 'none'))
@@ -532,6 +667,8 @@ def kinds(case, obs):
 
 
 def describe(case):
+    if case['via'] == 'history':
+        return case
     if case['via'] == 'direct' and len(case['detail'] or '') > 80:
         return dict(case, detail=case['detail'][:40] + '...(%d chars)' % len(case['detail']))
     return case
@@ -560,6 +697,20 @@ def _str_shrinks(t):
 
 
 def shrinks(case):
+    if case.get('via') == 'history':
+        n = len(case['calls'])
+        if n > 2:
+            for i in range(n):
+                yield dict(case, calls=case['calls'][:i] + case['calls'][i + 1:])
+        for k in range(n):
+            for d in shrinks(_as_direct(case, k)):
+                c2 = {f: d[f] for f in ('cls', 'detail', 'comment', 'explanation', 'location', 'headers', 'body_template')}
+                c2['via'] = 'history'
+                calls = list(case['calls'])
+                calls[k] = d['environ']
+                c2['calls'] = calls
+                yield c2
+        return
     if case.get('via') == 'app':
         if case['accept'] not in (None, 'text/html'):
             yield dict(case, accept='text/html')
@@ -636,6 +787,15 @@ def targeted(broken, disagreements, rng):
         for acc in ['text/html', 'application/json', 'text/plain']:
             for q in ['', 'x=<script>&y=${br}"\'']:
                 out.append({'via': 'app', 'kind': kind, 'path': path, 'query': q, 'script': '', 'accept': acc})
+    for cls in ['HTTPNotFound', 'HTTPFound', 'HTTPMethodNotAllowed']:
+        for a1 in ['text/plain', 'application/json', 'text/html', None]:
+            for a2 in ['text/html', 'application/json', 'text/plain']:
+                for t in ['<script>alert(1)</script>', '${br}"\'&']:
+                    envs = [[list(kv) for kv in BASE_ENV] + ([['HTTP_ACCEPT', a]] if a is not None else [])
+                            for a in (a1, a2, a1)]
+                    out.append({'via': 'history', 'cls': cls, 'detail': t, 'comment': t, 'explanation': None,
+                                'location': 'http://example.com/' + t if tb['classes'][cls]['move'] else '',
+                                'headers': [], 'body_template': None, 'calls': envs})
     for d in disagreements[:20]:
         out.append(d['case'])
     return [c for c in out if valid(c)]
